@@ -29,6 +29,21 @@ SAME-OBJECT HISTORIES (fixed ones run first, before any time budget; ~40 % of th
   between, and with NaN written into the tensors it returned; vector_to_grads twice on one network (re-initialised /
   one parameter re-bound / the same vector object refilled / parameters passed as a list).
 
+CALL FORMS (fixed cases that run first + rotating in the generated stream; every later fit() of a history draws its own):
+  * scheduler kind: StepLR, ExponentialLR, LambdaLR, OneCycleLR, CyclicLR (cycle_momentum off: the optimizer stays plain SGD),
+    MultiStepLR, CosineAnnealingLR, LinearLR, PolynomialLR, ConstantLR, CosineAnnealingWarmRestarts - each through a recording
+    subclass (same step-counting mix-in); lr oracle = closed form (StepLR, ExponentialLR) or a reference instance of torch's
+    OWN class on a dummy optimizer stepped once per epoch: one scheduler step per epoch, constant lr inside an epoch;
+  * optimizer handed over as the recording class, OMITTED (the default), torch.optim.SGD itself (both observed through torch's
+    public global optimizer-step hooks for the duration of the call), functools.partial, a factory object with __call__, a
+    lambda; scheduler as class / partial with every argument bound (scheduler_args omitted) / factory object / lambda;
+    at every optimizer.step every parameter must carry its .grad (the batch's gradient block);
+  * callbacks: the recording callback, omitted, [], None - without callbacks the epochs are cut by the requested numbers;
+  * epochs / starting_epoch / batch sizes / k as np.uint8, int8, uint16, int32, int64 and 0-d arrays (lr then as np.float64), in the
+    fixed cases with num_batches * neg_batch_size beyond the range of the narrow type;
+  * data as ndarray, tensor, list, numpy views (reversed rows, flipped columns, Fortran order, every second row, read-only, int8),
+    non-contiguous tensor view, float32 tensor.
+
 Property oracle (independent numpy, on what the optimizer saw): for every optimizer step
   grad(rbm_am) == positive_phase - (sum_{v in vk} grad E(v)) / |neg_batch|   (grad E recomputed in numpy), where vk
       are "the states reached by k Gibbs steps from the negative-phase batch":
@@ -55,7 +70,7 @@ Regimes: tiny shapes (brute-force everything), larger shapes nv, nh ~ 20..40 (fo
 Correspondence: the extracted Coq model (CDStep.cbg_binary/cbg_purification, vector_to_grads, assign_grads,
   sgd_step, batch_update, run_epochs/steplr) on the captured inputs vs what the implementation did.
 """
-import math, time, copy, itertools
+import math, time, copy, itertools, functools, warnings
 import numpy as np
 import gen
 
@@ -68,7 +83,13 @@ RULE = ("one case = one real fit() run (20 %: two consecutive fit() calls on the
         "draws: nv, nh in 20..40), N 1..9 samples (numpy array or torch tensor), pos_batch_size / neg_batch_size equal or "
         "different, dividing N or not, k = 0..3, lr from {1e-3, 0.05, 0.3, 1.0, log-uniform}, 1..4 epochs run from starting_epoch "
         "1..3, scheduler None or StepLR(step_size 1..3, gamma), optimizer_args absent or neutral (momentum=0, weight_decay=0: still "
-        "plain SGD); fixed cases that always run first: statistical law tests (positive / complex / density, k = 1, 2, 40000 "
+        "plain SGD); call forms rotating per fit call: scheduler kind in {StepLR, ExponentialLR, LambdaLR, OneCycleLR, CyclicLR, MultiStepLR, "
+        "CosineAnnealingLR, LinearLR, PolynomialLR, ConstantLR, CosineAnnealingWarmRestarts}, optimizer in {recording class, omitted, "
+        "torch.optim.SGD, functools.partial, factory object, lambda}, scheduler callable in {class, partial, factory object, lambda}, "
+        "callbacks in {recording, omitted, [], None}, integer arguments in {int, np.uint8, int8, uint16, int32, int64, 0-d arrays}, data in "
+        "{ndarray, tensor, list, reversed / flipped / Fortran / every-second-row / read-only / int8 numpy views, tensor view, float32 tensor}; "
+        "fixed cases that always run first: one 3-epoch run (>= 2 batches per epoch) per scheduler kind / optimizer form / scheduler form / "
+        "no-callback form / integer type (narrow types with num_batches * neg_batch_size beyond their range), statistical law tests (positive / complex / density, k = 1, 2, 40000 "
         "identical negative rows), 23 same-object fit histories covering every mutation operator x state type (incl. fit -> "
         "reinitialize_parameters -> fit for all three state types and identical re-fits), two-fit histories, 9 fixed + 12 random "
         "direct compute_batch_gradients histories on one state with the same tensor objects, near-vanishing rotated amplitude (|grad| ~ 1e3), 160x160 ones-vs-zeros "
@@ -80,6 +101,9 @@ ASSUMPTIONS = [
     "positive phase of Complex/DensityMatrix states is taken from state.positive_phase_gradients at the batch's parameters (its correctness is C03); for PositiveWaveFunction it is also recomputed in numpy",
     "torch.bernoulli(p) returns independent 0/1 draws with P(1) = p per entry (trusted, as in C05); draws made by other means are judged by the Hoeffding-bounded statistical law test (delta = 1e-9 per entry)",
     "stop requests during fit are not generated here (C12)",
+    "runs without callbacks: the number of epochs run and of batches per epoch is taken as requested (epochs - starting_epoch + 1, ceil(N / pos_batch_size)); that these numbers are right is C12 / C07",
+    "optimizer omitted / torch.optim.SGD itself: optimizer.step is observed through torch's public global hooks (torch.optim.optimizer.register_optimizer_step_pre_hook / _post_hook) for the duration of the fit call",
+    "OUT OF SCOPE (red team 2, C06_0, unchanged tree): `del rbm.visible_bias; rbm.visible_bias = nn.Parameter(..)` re-registers the parameter at the END of parameters(), so fit's flat gradient is sliced in another order (visible/hidden bias swapped when nv == nh, vector_to_grads raises otherwise); this needs the user to delete and re-register attributes of a library module, which the property does not quantify over: 'each value lands on the parameter it belongs to' is decided for parameters in the registration order the library's constructors produce (re-binding an existing name keeps its position and IS generated)",
 ]
 HOEFFDING_DELTA = 1e-9
 
@@ -264,10 +288,121 @@ def _bases(rng, kind, N, nv, max_rot=2):
     return ["".join(r) for r in rows]
 
 
-def _sched(rng):
-    if rng.random() < 0.7:
+SCHED_KINDS = ["StepLR", "ExponentialLR", "LambdaLR", "OneCycleLR", "CyclicLR"]
+# further torch schedulers, handed over with plain keyword arguments {"kind", "args"}; oracle = torch's own class stepped once per epoch
+MORE_SCHED_KINDS = ["MultiStepLR", "CosineAnnealingLR", "LinearLR", "PolynomialLR", "ConstantLR", "CosineAnnealingWarmRestarts"]
+OPT_FORMS = ["class", "default", "sgd", "partial", "factory", "lambda"]
+CALLABLE_FORMS = ["class", "partial", "factory", "lambda"]
+INT_KINDS = ["uint8", "int8", "uint16", "int32", "int64", "arr0d", "arr0d_uint8"]
+DATA_FORMS = ["ndarray", "tensor", "list", "np_reversed", "np_flipped", "np_fortran", "np_stride2", "np_readonly", "np_int",
+              "tensor_view", "tensor_float32"]
+# options of one fit() call that older replay files do not carry (defaults = what the check always did)
+RUN_OPTS = {"opt_form": "class", "sched_form": "class", "callbacks": "recording", "int_kind": None, "data_form": None}
+
+
+def _sched(rng, kind=None):
+    """A scheduler description.  StepLR keeps the historic form {"step_size", "gamma"}; the others carry "kind"."""
+    if kind is None:
+        if rng.random() >= 0.7:
+            return None
+        kind = "StepLR" if rng.random() < 0.45 else str(rng.choice(SCHED_KINDS[1:] + MORE_SCHED_KINDS))
+    if kind in MORE_SCHED_KINDS:
+        args = {"MultiStepLR": {"milestones": sorted(int(x) for x in rng.choice(5, size=2, replace=False) + 1), "gamma": float(rng.choice([0.5, 0.1, 2.0]))},
+                "CosineAnnealingLR": {"T_max": int(rng.integers(2, 6)), "eta_min": float(rng.choice([0.0, 1e-3]))},
+                "LinearLR": {"start_factor": float(rng.choice([0.25, 0.5])), "total_iters": int(rng.integers(1, 4))},
+                "PolynomialLR": {"total_iters": int(rng.integers(2, 5)), "power": float(rng.choice([1.0, 2.0]))},
+                "ConstantLR": {"factor": float(rng.choice([0.25, 0.5])), "total_iters": int(rng.integers(1, 3))},
+                "CosineAnnealingWarmRestarts": {"T_0": int(rng.integers(1, 4)), "eta_min": 0.0}}[kind]
+        return {"kind": kind, "args": args}
+    if kind == "StepLR":
         return {"step_size": int(rng.integers(1, 4)), "gamma": float(rng.choice([0.5, 0.1, 0.9, 1.5]))}
-    return None
+    if kind == "ExponentialLR":
+        return {"kind": kind, "gamma": float(rng.choice([0.5, 0.1, 0.9, 1.5]))}
+    if kind == "LambdaLR":
+        return {"kind": kind, "factors": [1.0] + [float(x) for x in rng.choice([0.5, 2.0, 0.1, 0.25, 1.5], size=5)]}
+    if kind == "OneCycleLR":
+        return {"kind": kind, "max_lr": float(rng.choice([0.05, 0.5, 1.0])), "total_steps": int(rng.integers(40, 80))}
+    base = float(rng.choice([1e-3, 0.01, 0.1]))
+    return {"kind": "CyclicLR", "base_lr": base, "max_lr": base * float(rng.choice([3.0, 10.0])), "step_size_up": int(rng.integers(1, 4))}
+
+
+def sched_kind(sched):
+    return None if sched is None else sched.get("kind", "StepLR")
+
+
+def sched_kwargs(sched):
+    """scheduler_args of the real torch class (cycle_momentum off: the optimizer must stay plain SGD)."""
+    kind = sched_kind(sched)
+    if "args" in sched:
+        return dict(sched["args"])
+    if kind == "StepLR":
+        return {"step_size": sched["step_size"], "gamma": sched["gamma"]}
+    if kind == "ExponentialLR":
+        return {"gamma": sched["gamma"]}
+    if kind == "LambdaLR":
+        f = list(sched["factors"])
+        return {"lr_lambda": (lambda e: f[min(int(e), len(f) - 1)])}
+    if kind == "OneCycleLR":
+        return {"max_lr": sched["max_lr"], "total_steps": sched["total_steps"], "cycle_momentum": False}
+    return {"base_lr": sched["base_lr"], "max_lr": sched["max_lr"], "step_size_up": sched["step_size_up"], "cycle_momentum": False}
+
+
+def ref_lrs(lr0, sched, n):
+    """lr of epoch 0..n-1 when the scheduler is advanced exactly once per completed epoch: closed forms for StepLR /
+    ExponentialLR, else a reference instance of torch's OWN class on a dummy optimizer, stepped once per epoch."""
+    kind = sched_kind(sched)
+    if kind is None:
+        return [lr0] * n
+    if kind == "StepLR":
+        return [steplr_ref(lr0, sched["gamma"], sched["step_size"], e) for e in range(n)]
+    if kind == "ExponentialLR":
+        return [lr0 * sched["gamma"] ** e for e in range(n)]
+    import torch
+    opt = torch.optim.SGD([torch.nn.Parameter(torch.zeros(1), requires_grad=False)], lr=lr0)
+    out = []
+    with warnings.catch_warnings():
+        warnings.simplefilter("ignore")
+        sc = getattr(torch.optim.lr_scheduler, kind)(opt, **sched_kwargs(sched))
+        for e in range(n):
+            out.append(float(opt.param_groups[0]["lr"]))
+            opt.step()
+            try:
+                sc.step()
+            except Exception:
+                out += [float("nan")] * (n - len(out))
+                break
+    return out
+
+
+def _run_opts(rng, sched, allow_nocb=True):
+    """Call-form options of one fit() call: how optimizer / scheduler / callbacks / integer arguments / data are handed over."""
+    o = {}
+    o["opt_form"] = "class" if rng.random() < 0.55 else str(rng.choice(OPT_FORMS[1:]))
+    o["sched_form"] = "class" if (sched is None or rng.random() < 0.7) else str(rng.choice(CALLABLE_FORMS[1:]))
+    o["callbacks"] = "recording" if (not allow_nocb or rng.random() < 0.8) else str(rng.choice(["omitted", "empty_list", "none"]))
+    o["int_kind"] = None if rng.random() < 0.75 else str(rng.choice(INT_KINDS))
+    o["data_form"] = None if rng.random() < 0.55 else str(rng.choice(DATA_FORMS[2:]))
+    return o
+
+
+class _Factory:
+    """A factory OBJECT (callable instance, no __name__): optimizer(params, lr=..) / scheduler(optimizer, ..)."""
+
+    def __init__(self, cls):
+        self.cls = cls
+
+    def __call__(self, first, *a, **kw):
+        return self.cls(first, *a, **kw)
+
+
+def _as_int(v, kind):
+    if v is None or kind is None:
+        return v
+    if kind == "arr0d":
+        return np.array(int(v))
+    if kind == "arr0d_uint8":
+        return np.array(int(v), dtype=np.uint8)
+    return np.dtype(kind).type(int(v))
 
 
 def _lr(rng):
@@ -317,6 +452,7 @@ def rand_spec(ctx, kind=None, k=None, pattern=None, large=None, second=None, his
             "scheduler": sched, "data": data.tolist(), "bases": bases,
             "am": gen.plist(*am), "ph": gen.plist(*ph) if ph is not None else None,
             "torch_seed": ctx.torch_seed(), "second": None, "history": None}
+    spec.update(_run_opts(rng, sched))
     if second is False and history is None:
         history = False
     if history is None:
@@ -335,6 +471,7 @@ def rand_spec(ctx, kind=None, k=None, pattern=None, large=None, second=None, his
         spec["second"] = {"lr": lr2, "scheduler": _sched(rng), "epochs": int(rng.integers(1, 3)), "starting_epoch": 1,
                           "k": int(rng.integers(0, 4)), "neg_batch_size": int(rng.integers(1, 6)),
                           "pos_batch_size": pb, "optimizer_args": optimizer_args, "data_as_tensor": data_as_tensor}
+        spec["second"].update(_run_opts(rng, spec["second"]["scheduler"]))
     return spec
 
 
@@ -488,13 +625,15 @@ def rand_run(ctx, base, same=False):
     """Arguments of a further fit() call on the same state (same=True: exactly the arguments of the first call again)."""
     rng = ctx.rng
     if same:
-        return {k: copy.deepcopy(base[k]) for k in RUN_KEYS}
+        return {k: copy.deepcopy(base[k]) for k in RUN_KEYS + [o for o in RUN_OPTS if o in base]}
     lr2 = _lr(rng)
     while math.isclose(lr2, base["lr"], rel_tol=0.05):
         lr2 = base["lr"] * float(rng.choice([0.1, 3.0]))
-    return {"lr": lr2, "scheduler": _sched(rng), "epochs": int(rng.integers(1, 3)), "starting_epoch": int(rng.choice([1, 1, 2])),
-            "k": int(rng.integers(0, 4)), "neg_batch_size": (None if rng.random() < 0.2 else int(rng.integers(1, 6))),
-            "pos_batch_size": base["pos_batch_size"], "optimizer_args": base["optimizer_args"], "data_as_tensor": base["data_as_tensor"]}
+    run = {"lr": lr2, "scheduler": _sched(rng), "epochs": int(rng.integers(1, 3)), "starting_epoch": int(rng.choice([1, 1, 2])),
+           "k": int(rng.integers(0, 4)), "neg_batch_size": (None if rng.random() < 0.2 else int(rng.integers(1, 6))),
+           "pos_batch_size": base["pos_batch_size"], "optimizer_args": base["optimizer_args"], "data_as_tensor": base["data_as_tensor"]}
+    run.update(_run_opts(rng, run["scheduler"]))
+    return run
 
 
 def rand_mid(ctx, spec, run, nhs, wscale=1.0):
@@ -512,13 +651,14 @@ def add_history(ctx, spec, ops_per_step, same_last=False, mid=None):
     kind, nv, na = spec["state"], spec["nv"], spec["na"] or 1
     wscale = 1.0 / math.sqrt(nv) if max(nv, spec["nh"]) > 4 else 1.0
     nhs = {n: spec["nh"] for n in _nets_of(kind)}
-    base = {k: spec[k] for k in RUN_KEYS}
+    base = {k: spec[k] for k in RUN_KEYS + [o for o in RUN_OPTS if o in spec]}
     hist = []
     for i, ops in enumerate(ops_per_step):
         muts = [rand_mutation(ctx, kind, nv, nhs, na, op=o, wscale=wscale) for o in ops]
         run = rand_run(ctx, base, same=(same_last and i == len(ops_per_step) - 1))
         if mid is not None and i in mid:
             run["mid"] = rand_mid(ctx, spec, run, nhs, wscale)
+            run["callbacks"] = "recording"          # the in-place edit is made by the harness's callback
         hist.append({"mut": muts, "run": run})
     spec["history"] = hist
     return spec
@@ -602,6 +742,55 @@ def fixed_specs(ctx):
     return out
 
 
+def fixed_call_forms(ctx):
+    """Call forms that always run first: every scheduler kind, every way of handing over the optimizer / scheduler (class,
+    omitted = default, torch.optim.SGD itself, functools.partial, factory object, lambda), runs without callbacks, integer
+    arguments as narrow numpy integers / 0-d arrays, data as numpy views / lists / tensor views.  Each has 3 epochs of >= 2
+    batches, so that a scheduler advanced per batch, a stale lr or a skipped optimizer.step shows."""
+    rng = ctx.rng
+    kinds3 = ["positive", "complex", "dm"]
+    plan = []
+    for kind in SCHED_KINDS + [MORE_SCHED_KINDS[int(rng.integers(0, 3))], MORE_SCHED_KINDS[3 + int(rng.integers(0, 3))]]:   # A. scheduler kinds
+        plan.append(("scheduler_kind:" + kind, kind, {}))
+    plan += [                                                                  # B. optimizer / scheduler call forms
+        ("optimizer_default", "StepLR", {"opt_form": "default"}),
+        ("optimizer_torch_SGD_itself", "ExponentialLR", {"opt_form": "sgd"}),
+        ("optimizer_default_no_scheduler", None, {"opt_form": "default", "optimizer_args": {"momentum": 0.0, "weight_decay": 0.0}}),
+        ("optimizer_partial", None, {"opt_form": "partial"}),
+        ("optimizer_factory_object", "StepLR", {"opt_form": "factory", "sched_form": "factory"}),
+        ("optimizer_lambda", "LambdaLR", {"opt_form": "lambda", "sched_form": "lambda"}),
+        ("scheduler_partial", "OneCycleLR", {"opt_form": "partial", "sched_form": "partial"}),
+        # C. runs without callbacks
+        ("callbacks_omitted", "StepLR", {"callbacks": "omitted"}),
+        ("callbacks_empty_list", "CyclicLR", {"callbacks": "empty_list"}),
+        ("callbacks_None", "OneCycleLR", {"callbacks": "none", "opt_form": "sgd"}),
+        ("plain_call:no_optimizer_no_callbacks", "ExponentialLR", {"callbacks": "omitted", "opt_form": "default"}),
+    ]
+    for ik in INT_KINDS:                                                       # D. integer arguments
+        plan.append(("integer_arguments:" + ik, "StepLR" if len(plan) % 2 else None, {"int_kind": ik}))
+    out = []
+    for i, (label, skind, upd) in enumerate(plan):
+        while True:
+            sp = rand_spec(ctx, kinds3[i % 3], 1 + i % 2, "neg_larger", large=False, second=False)
+            if sp["N"] >= 4:
+                break
+        sp.update(RUN_OPTS)
+        sp.update(pos_batch_size=2, neg_batch_size=3, epochs=3, starting_epoch=1 if i % 4 else 2, optimizer_args=None,
+                  scheduler=None if skind is None else _sched(rng, skind), data_form=DATA_FORMS[i % len(DATA_FORMS)])
+        if skind == "StepLR":
+            sp["scheduler"] = {"step_size": 1, "gamma": 0.5}
+        sp.update(upd)
+        if sp["int_kind"] in ("uint8", "arr0d_uint8", "int8"):
+            # enough batches that num_batches * neg_batch_size leaves the integer type (a wrap would drop batches: seen in a
+            # run without callbacks, where the batches are counted against ceil(N / pos_batch_size))
+            top = 127 if sp["int_kind"] == "int8" else 255
+            sp.update(pos_batch_size=1, neg_batch_size=top // sp["N"] + 1, epochs=2, k=1)
+            if sp["int_kind"] != "int8":
+                sp["callbacks"] = "omitted"
+        out.append((label, sp))
+    return out
+
+
 def stat_fixed(ctx):
     """Parameters with a strongly state-dependent chain (the red team's demo point and a purification analogue)."""
     return [
@@ -632,7 +821,7 @@ def build_state(spec):
 # ------------------------------------------------------------------------------------------ recording one state
 SPEC_KEYS = ["state", "nv", "nh", "na", "N", "pos_batch_size", "neg_batch_size", "pattern", "k", "lr", "epochs", "scheduler",
              "data", "bases", "am", "ph", "torch_seed"]
-SPEC_DEFAULTS = {"starting_epoch": 1, "optimizer_args": None, "data_as_tensor": False, "second": None, "history": None}
+SPEC_DEFAULTS = dict({"starting_epoch": 1, "optimizer_args": None, "data_as_tensor": False, "second": None, "history": None}, **RUN_OPTS)
 RUN_KEYS = ["lr", "scheduler", "epochs", "starting_epoch", "k", "neg_batch_size", "pos_batch_size", "optimizer_args", "data_as_tensor"]
 
 
@@ -651,6 +840,8 @@ class Recorder:
         # objects the caller hands to EVERY fit() call of the history (same objects, refilled / edited in place between calls)
         self.data_np = np.array(spec["data"], dtype=float)
         self.data_t = torch.tensor(self.data_np, dtype=torch.double)
+        self.data_objs = {"ndarray": self.data_np, "tensor": self.data_t}
+        self.in_mut = False                   # a mutation of the harness is running (its optimizer step is not fit's)
         self.bases_np = None if spec["state"] == "positive" else np.array([list(b) for b in spec["bases"]])
         self.opt_args, self.sched_args = {}, {}
         R = self
@@ -666,16 +857,23 @@ class Recorder:
                 R.events.append(("opt", rec))
                 return out
 
-        class RecStepLR(torch.optim.lr_scheduler.StepLR):
-            def __init__(self, *a, **k):
-                self._rec_ready = False            # the constructor performs torch's own initial step()
-                super().__init__(*a, **k)
-                self._rec_ready = True
+        def rec_sched(base):
+            class RecSched(base):
+                def __init__(self, *a, **k):
+                    self._rec_ready = False            # the constructor performs torch's own initial step()
+                    super().__init__(*a, **k)
+                    self._rec_ready = True
 
-            def step(self, *a, **k):
-                if self._rec_ready:
-                    R.events.append(("sched", {}))
-                return super().step(*a, **k)
+                def step(self, *a, **k):
+                    if getattr(self, "_rec_ready", False):
+                        R.events.append(("sched", {}))
+                    return super().step(*a, **k)
+            RecSched.__name__ = RecSched.__qualname__ = "Rec" + base.__name__
+            return RecSched
+
+        RecStepLR = rec_sched(torch.optim.lr_scheduler.StepLR)
+        self.rec_scheds = {"StepLR": RecStepLR}
+        self._rec_sched = rec_sched
 
         class RecCB(CallbackBase):
             def on_epoch_start(self, nn_state, epoch):
@@ -691,7 +889,11 @@ class Recorder:
                     # a callback edits live parameters IN PLACE (same nn.Parameter objects) before this batch is processed
                     mid["done"] = True
                     before = R.live_snap()
-                    apply_mutation(R.ctx, R.s, R.spec["state"], mid)
+                    R.in_mut = True
+                    try:
+                        apply_mutation(R.ctx, R.s, R.spec["state"], mid)
+                    finally:
+                        R.in_mut = False
                     R.events.append(("mut", {"live_before": before, "live_after": R.live_snap(), "op": mid["op"]}))
 
             def on_batch_end(self, nn_state, epoch, batch):
@@ -769,6 +971,42 @@ class Recorder:
         self.watch_gibbs()
         return True
 
+    def sched_class(self, kind):
+        import torch
+        if kind not in self.rec_scheds:
+            self.rec_scheds[kind] = self._rec_sched(getattr(torch.optim.lr_scheduler, kind))
+        return self.rec_scheds[kind]
+
+    def data_object(self, form):
+        """The caller's data object of the given form (content = spec["data"]); the SAME object at every call that uses the form."""
+        import torch
+        if form not in self.data_objs:
+            d = self.data_np
+            if form == "list":
+                o = [[float(x) for x in r] for r in d.tolist()]
+            elif form == "np_reversed":
+                o = d[::-1].copy()[::-1]                        # a view with a negative row stride
+            elif form == "np_flipped":
+                o = d[:, ::-1].copy()[:, ::-1]                  # ... negative column stride
+            elif form == "np_fortran":
+                o = np.asfortranarray(d)
+            elif form == "np_stride2":
+                big = np.full((2 * d.shape[0], d.shape[1]), 0.5); big[::2] = d
+                o = big[::2]                                    # every second row of a larger array
+            elif form == "np_readonly":
+                o = d.copy(); o.setflags(write=False)
+            elif form == "np_int":
+                o = d.astype(np.int8)
+            elif form == "tensor_view":
+                big = torch.full((d.shape[0], 2 * d.shape[1]), 0.5, dtype=torch.double); big[:, ::2] = self.data_t
+                o = big[:, ::2]                                 # non-contiguous tensor view
+            elif form == "tensor_float32":
+                o = self.data_t.to(torch.float32)
+            else:
+                raise ValueError("unknown data form " + str(form))
+            self.data_objs[form] = o
+        return self.data_objs[form]
+
     def fit(self, ctx, run, case):
         """One real fit() call with the run's arguments.  Returns (ok, events, init_params)."""
         import torch
@@ -780,24 +1018,79 @@ class Recorder:
         if self.mid is not None:
             ctx.count("mid_fit_in_place_edit:" + self.mid["op"])
         se = run["starting_epoch"]
-        kw = dict(epochs=se + run["epochs"] - 1, pos_batch_size=run["pos_batch_size"], neg_batch_size=run["neg_batch_size"],
-                  k=run["k"], lr=run["lr"], optimizer=self.RecSGD, callbacks=[self.cb])
+        ik = run.get("int_kind")
+        kw = dict(epochs=_as_int(se + run["epochs"] - 1, ik), pos_batch_size=_as_int(run["pos_batch_size"], ik),
+                  neg_batch_size=_as_int(run["neg_batch_size"], ik), k=_as_int(run["k"], ik),
+                  lr=run["lr"] if ik is None else np.float64(run["lr"]))           # ... and the lr as a numpy float
         if se != 1:
-            kw["starting_epoch"] = se
+            kw["starting_epoch"] = _as_int(se, ik)
+        # -- how the optimizer is handed over: the recording class, nothing (the default), torch's SGD itself, or another callable
+        form = run.get("opt_form") or "class"
+        RS = self.RecSGD
+        if form == "class":
+            kw["optimizer"] = RS
+        elif form == "sgd":
+            kw["optimizer"] = torch.optim.SGD
+        elif form == "partial":
+            kw["optimizer"] = functools.partial(RS, dampening=0.0)
+        elif form == "factory":
+            kw["optimizer"] = _Factory(RS)
+        elif form == "lambda":
+            kw["optimizer"] = lambda params, lr=1e-3, **k: RS(params, lr=lr, **k)
+        cbs = run.get("callbacks") or "recording"
+        if self.mid is not None:
+            cbs = "recording"
+        if cbs == "recording":
+            kw["callbacks"] = [self.cb]
+        elif cbs == "empty_list":
+            kw["callbacks"] = []
+        elif cbs == "none":
+            kw["callbacks"] = None
         # the same dict objects are handed over at every call, their contents replaced in place
         if run.get("optimizer_args") is not None:
             self.opt_args.clear(); self.opt_args.update(run["optimizer_args"])
             kw["optimizer_args"] = self.opt_args
         if run["scheduler"] is not None:
-            kw["scheduler"] = self.RecStepLR
-            self.sched_args.clear(); self.sched_args.update(run["scheduler"])
-            kw["scheduler_args"] = self.sched_args
+            cls = self.sched_class(sched_kind(run["scheduler"]))
+            skw = sched_kwargs(run["scheduler"])
+            sform = run.get("sched_form") or "class"
+            if sform == "partial":
+                kw["scheduler"] = functools.partial(cls, **skw)            # every argument bound, scheduler_args omitted
+            else:
+                kw["scheduler"] = cls if sform == "class" else _Factory(cls) if sform == "factory" else (lambda opt, **k: cls(opt, **k))
+                self.sched_args.clear(); self.sched_args.update(skw)
+                kw["scheduler_args"] = self.sched_args
         if spec["state"] != "positive":
             kw["input_bases"] = self.bases_np
-        data = self.data_t if run.get("data_as_tensor") else self.data_np
+        data = self.data_object(run.get("data_form") or ("tensor" if run.get("data_as_tensor") else "ndarray"))
         init_params = self.live_snap()
-        with self.spy:
-            ok, _ = ctx.call("fit", case, lambda: s.fit(data, **kw))
+        handles = []
+        if form in ("default", "sgd"):
+            # no recording class can be handed over: optimizer.step is observed through torch's public global step hooks
+            from torch.optim.optimizer import register_optimizer_step_pre_hook, register_optimizer_step_post_hook
+            R, pend = self, {}
+
+            def pre(opt, a, k):
+                if R.in_mut:
+                    return
+                ps = [p for g in opt.param_groups for p in g["params"]]
+                pend[id(opt)] = {"lrs": [float(g["lr"]) for g in opt.param_groups for _ in g["params"]], "params": ps,
+                                 "before": [p.data.detach().clone() for p in ps],
+                                 "grad": [None if p.grad is None else p.grad.detach().clone() for p in ps]}
+
+            def post(opt, a, k):
+                rec = pend.pop(id(opt), None)
+                if rec is not None:
+                    rec["after"] = [p.data.detach().clone() for p in rec["params"]]
+                    R.events.append(("opt", rec))
+            handles = [register_optimizer_step_pre_hook(pre), register_optimizer_step_post_hook(post)]
+        try:
+            with self.spy, warnings.catch_warnings():
+                warnings.simplefilter("ignore")
+                ok, _ = ctx.call("fit", case, lambda: s.fit(data, **kw))
+        finally:
+            for h in handles:
+                h.remove()
         if self.mid is not None and not self.mid.get("done"):
             ctx.count("mid_fit_in_place_edit_not_reached")
         self.mid = None
@@ -849,11 +1142,13 @@ def vb_slice(par_am):
 def runs_of(spec):
     """[(mutations applied to the live state before the call, arguments of the fit() call)]"""
     first = {k: spec[k] for k in RUN_KEYS}
+    first.update({o: spec.get(o, d) for o, d in RUN_OPTS.items()})
+    base = dict(first, **RUN_OPTS)                 # a later call that does not say otherwise uses the historic call form
     runs = [([], first)]
     if spec.get("second"):
-        runs.append(([], dict(first, **{k: v for k, v in spec["second"].items() if k in RUN_KEYS})))
+        runs.append(([], dict(base, **{k: v for k, v in spec["second"].items() if k in RUN_KEYS + list(RUN_OPTS)})))
     for step in (spec.get("history") or []):
-        runs.append((step.get("mut") or [], dict(first, **{k: v for k, v in step["run"].items() if k in RUN_KEYS + ["mid"]})))
+        runs.append((step.get("mut") or [], dict(base, **{k: v for k, v in step["run"].items() if k in RUN_KEYS + ["mid"] + list(RUN_OPTS)})))
     return runs
 
 
@@ -878,8 +1173,7 @@ def run_case(ctx, spec, model_every=1, label=None):
                 "shape:%s" % ("tiny" if max(spec["nv"], spec["nh"]) <= 4 else "20..40" if max(spec["nv"], spec["nh"]) <= 40 else ">100"),
                 "fit_calls_on_the_state:%d" % len(runs), "regime:" + (label or "generated"),
                 "optimizer_args:" + ("none" if spec["optimizer_args"] is None else "neutral"),
-                "data:" + ("tensor" if spec["data_as_tensor"] else "ndarray"),
-                "scheduler:" + ("none" if sched is None else "steplr%d" % sched["step_size"]),
+                "scheduler:" + ("none" if sched is None else "steplr%d" % sched["step_size"] if sched_kind(sched) == "StepLR" else sched_kind(sched)),
                 "batches_per_epoch:%d" % nbatches, "neg_vs_pos:" + ("eq" if nb == pb else "lt" if nb < pb else "gt")):
         ctx.count(key)
     import torch
@@ -890,7 +1184,14 @@ def run_case(ctx, spec, model_every=1, label=None):
         if muts and not R.mutate(ctx, muts):
             break
         rcase = dict(case, fit_call=ri + 1, mutations_before_this_fit=[mu["op"] for mu in muts],
-                     **{("run_" + k): run[k] for k in ("lr", "scheduler", "epochs", "k", "neg_batch_size")})
+                     **{("run_" + k): run.get(k) for k in ("lr", "scheduler", "epochs", "k", "neg_batch_size") + tuple(RUN_OPTS)})
+        for key in ("optimizer_form:" + (run.get("opt_form") or "class"),
+                    "scheduler_form:" + ("none" if run["scheduler"] is None else (run.get("sched_form") or "class")),
+                    "scheduler_kind:" + str(sched_kind(run["scheduler"])),
+                    "callbacks:" + ("recording" if run.get("mid") else (run.get("callbacks") or "recording")),
+                    "integer_arguments:" + str(run.get("int_kind") or "python_int"),
+                    "data:" + (run.get("data_form") or ("tensor" if run.get("data_as_tensor") else "ndarray"))):
+            ctx.count(key)
         if run.get("mid"):
             rcase["in_place_edit_during_this_fit"] = {k: run["mid"][k] for k in ("op", "epoch", "batch")}
         ok, events, init_params = R.fit(ctx, run, rcase)
@@ -936,6 +1237,10 @@ def analyse_run(ctx, spec, run, case, R, events, init_params, model_every, flags
     # optimizer/scheduler steps alone: (opt x batches of epoch e, then sched) for e = 1, 2, ...  Nothing is demanded about
     # the position of scheduler.step relative to on_epoch_end, or of internal calls relative to the batch callbacks.
     nb_per_epoch = []
+    if (run.get("callbacks") or "recording") != "recording" and not run.get("mid"):
+        # a run WITHOUT callbacks: nobody sees the epochs; they are cut by the requested numbers (epochs to run,
+        # ceil(N / pos_batch_size) batches each - that these numbers are right is C12 / C07)
+        nb_per_epoch = [math.ceil(spec["N"] / run["pos_batch_size"])] * run["epochs"]
     for ke in kinds:
         if ke == "epoch_start":
             nb_per_epoch.append(0)
@@ -961,6 +1266,7 @@ def analyse_run(ctx, spec, run, case, R, events, init_params, model_every, flags
         ctx.count("compute_batch_gradients_not_observed_per_step")
         return False
     epoch_of_step = [e for e in range(n_epochs) for _ in range(nb_per_epoch[e])]
+    lr_ref = ref_lrs(run["lr"], sched, n_epochs)       # one scheduler step per completed epoch, constant inside an epoch
 
     # ---------------------------------------------------------------- per optimizer step
     layouts = [layout_of(n) for n in nets]
@@ -1102,7 +1408,7 @@ def analyse_run(ctx, spec, run, case, R, events, init_params, model_every, flags
                 scale = [1.0] + [max(1.0, float(np.max(np.abs(p)))) for p in pos[1:]]
             # -- the parameters the state USES (whatever objects the optimizer holds): with plain SGD they move by exactly
             #    -lr * gradient at this batch, lr from THIS fit call's schedule
-            lr_want = run["lr"] if sched is None else steplr_ref(run["lr"], sched["gamma"], sched["step_size"], epoch)
+            lr_want = lr_ref[epoch]
             after_live = live_next[bi - 1]
             for ni in range(len(nets)):
                 off = 0
@@ -1216,16 +1522,22 @@ def analyse_run(ctx, spec, run, case, R, events, init_params, model_every, flags
     elif not big:
         theta0 = np.concatenate([flat_of(p) for p in init_params])
         thetaF = np.concatenate([flat_of(p) for p in final])
+        skind = sched_kind(sched)
         if sched is None:
             r = m.call("cd_run", run["lr"], 1.0, 1, 0, theta0, [[g.tolist() for g in ep] for ep in grads_by_epoch])
+        elif skind in ("StepLR", "ExponentialLR"):
+            r = m.call("cd_run", run["lr"], sched["gamma"], sched.get("step_size", 1), 1, theta0, [[g.tolist() for g in ep] for ep in grads_by_epoch])
         else:
-            r = m.call("cd_run", run["lr"], sched["gamma"], sched["step_size"], 1, theta0, [[g.tolist() for g in ep] for ep in grads_by_epoch])
+            # the model's scheduler is StepLR: for the other kinds only the step machine (counts, order) is compared
+            r = m.call("cd_run", run["lr"], 1.0, 1, 1, theta0, [[g.tolist() for g in ep] for ep in grads_by_epoch])
+            ctx.count("fit_machine_lr_not_compared:scheduler_kind_" + skind)
         m_theta, m_nopt, m_nsched, m_trace, m_lrs = r
         ctx.agree_exact("fit machine: optimizer steps", n_opt, int(m_nopt), case)
         ctx.agree_exact("fit machine: scheduler steps", n_sched, int(m_nsched), case)
         ctx.agree_exact("fit machine: step trace", trace, [int(x) for x in m_trace], case)
-        ctx.agree("fit machine: lr of every step", lrs, m_lrs, case, rtol=1e-12, atol=0.0)
-        ctx.agree("fit machine: final parameters", thetaF, m_theta, case, rtol=1e-9, atol=1e-12)
+        if sched is None or skind in ("StepLR", "ExponentialLR"):
+            ctx.agree("fit machine: lr of every step", lrs, m_lrs, case, rtol=1e-12, atol=0.0)
+            ctx.agree("fit machine: final parameters", thetaF, m_theta, case, rtol=1e-9, atol=1e-12)
     ctx.traces += 1
     return True
 
@@ -1508,6 +1820,8 @@ def run(ctx):
     # 1. regimes the random stream rarely reaches: always first
     for st in stat_fixed(ctx):
         stat_case(ctx, st, [1, 2] if not ctx.thorough else [1, 2, 3], M=40000 if not ctx.thorough else 200000)
+    for label, sp in fixed_call_forms(ctx):          # scheduler kinds, optimizer / scheduler call forms, no callbacks, numpy ints
+        run_case(ctx, sp, label=label)
     for label, sp in fixed_histories(ctx):           # same-object histories: every mutation operator x state type, never cut
         run_case(ctx, sp, label=label)
     for label, sp in fixed_specs(ctx):
